@@ -2,7 +2,8 @@
 (***************************************************************************)
 (* Trace validation for the stepping loop (C12, C14): a monitor whose      *)
 (* clauses are the properties of SolverLoop.tla (Tiling, MinStep,          *)
-(* AcceptRule, RetrySmaller, HalfStepValue, OutputForm, Terminates) stated  *)
+(* AcceptRule, RetrySmaller, HalfStepValue, RejectKeepsState/AcceptedOnly,  *)
+(* OutputForm, Terminates) stated                                            *)
 (* per recorded event.  Every behaviour of SolverLoop, written as events,   *)
 (* is accepted (checked by checks/c14.py on all generated behaviours).      *)
 (*                                                                         *)
@@ -18,9 +19,9 @@
 (* events:                                                                  *)
 (*   [k |-> "fstep", a, b, q, lenOK, yin]                fixed step         *)
 (*   [k |-> "trial", a, m, b, q, midOK, lenOK, s, le1, normOK, argsOK,      *)
-(*                   raw, nxt, acc, yin]                 adaptive trial     *)
+(*                   raw, nxt, acc, yin, xin]            adaptive trial     *)
 (*   [k |-> "out", idx, t, a, b, kind, valOK]            one output         *)
-(*   [k |-> "end", wdOK, shapeOK]                        integrate returned *)
+(*   [k |-> "end", wdOK, shapeOK, reexecOK]              integrate returned *)
 (*   [k |-> "abort"]                                     watchdog expired   *)
 (*   [k |-> "cut"]                                       rest of a long     *)
 (*                                                       trace not shown    *)
@@ -77,6 +78,9 @@ TrialClauses(e) ==
     <<"RetrySmaller", (~e.acc) => (Clamped(e) < e.s /\ Clamped(e) >= Hdr.mn)>>,
     <<"HalfStepValue", e.yin = (CASE prevKind = "first" -> "y0" [] prevKind = "acc" -> "half"
                                   [] OTHER -> "same")>>,
+    \* ... and from the extra solver state that goes with it: a rejected trial must not advance it
+    <<"ExtraState", e.xin = (CASE prevKind = "first" -> "x0" [] prevKind = "acc" -> "half"
+                               [] OTHER -> "same")>>,
     <<"Mode", Hdr.mode = "adaptive">> }
 
 OutClauses(e) ==
@@ -92,6 +96,9 @@ EndClauses(e) ==
   { <<"Complete", cur = T /\ nout = Len(Hdr.ts)>>,
     <<"Watchdog", e.wdOK>>,
     <<"Shape", e.shapeOK>>,
+    \* re-executing solver.step along the accepted half steps alone, from (y0, extra0), reproduces every
+    \* accepted state and the returned extra state bit for bit
+    <<"AcceptedOnly", e.reexecOK>>,
     <<"Last", i = Len(Ev)>> }
 
 Clauses(e) == CASE e.k = "fstep" -> FStepClauses(e)
